@@ -207,7 +207,7 @@ def s3(I):
     I.set_hint(HINT)
     x = I.sym('reserve_x', lo=1, hi=1 << 100)
     y = I.sym('reserve_y', lo=1, hi=1 << 100)
-    S = I.sym('lp_supply', lo=MINLIQ + 1, hi=1 << 100)
+    S = I.sym('lp_supply', lo=MINLIQ, hi=1 << 100)
     fees, _ = sym_fees(I, 0)
     pool = pool_info('p1', ['uB', 'uA'], [6, 6], [y, x], xyk(), fees)
     pm_config(I)
